@@ -1,5 +1,294 @@
 import SemVerif.Spec.Preds
 import SemVerif.Inventory
-/-! # Property C15 — theorems (under construction) -/
+import SemVerif.Lemmas.Misc
+/-!
+# Property C15 — global symbol tables match the declarations; first declaration wins
+
+`C15`: for every program the tables and the global stack computed by the model's declaration
+passes are exactly the ones of the declarative registration `declPhase` of the rule set: the
+first declaration of each name whose own checks pass, types first, then constants and functions in
+source order, one declaration instruction each; one root block per function; no key twice.
+Proved by a simulation between `pass1`/`pass2` and `declTypes`/`declConstsFns`.
+-/
 namespace SemVerif
+
+theorem rlookup_eq_assocGet {β : Type} (n : Name) : ∀ (l : List (Name × β)), rlookup n l = assocGet n l
+  | [] => rfl
+  | (k, v) :: rest => by
+    unfold rlookup assocGet
+    split <;> simp_all [rlookup_eq_assocGet n rest]
+
+theorem assocInsert_absent {β : Type} (k : Name) (v : β) : ∀ (l : List (Name × β)),
+    assocGet k l = none → assocInsert k v l = l ++ [(k, v)]
+  | [], _ => rfl
+  | (k', v') :: rest, h => by
+    unfold assocGet at h
+    split at h
+    · cases h
+    · rename_i hk
+      unfold assocInsert
+      simp [hk, assocInsert_absent k v rest h]
+
+theorem assocGet_map_isSome {β γ : Type} (f : β → γ) (n : Name) : ∀ (l : List (Name × β)),
+    (assocGet n (l.map fun x => (x.1, f x.2))).isSome = (assocGet n l).isSome
+  | [] => rfl
+  | (k, v) :: rest => by
+    simp only [List.map_cons, assocGet]
+    split
+    · simp
+    · exact assocGet_map_isSome f n rest
+
+theorem assocGet_none_not_mem_keys {β : Type} (n : Name) : ∀ (l : List (Name × β)),
+    assocGet n l = none → n ∉ l.map (·.1)
+  | [], _ => by simp
+  | (k, v) :: rest, h => by
+    unfold assocGet at h
+    split at h
+    · cases h
+    · rename_i hk
+      simp only [List.map_cons, List.mem_cons, not_or]
+      exact ⟨hk, assocGet_none_not_mem_keys n rest h⟩
+
+/-- simulation relation between the model's global state and the rule checker's -/
+structure Rel (gs : GState) (ds : DS) : Prop where
+  types : gs.types = ds.rtypes.map tyEntry
+  gtypes : ds.g.types = ds.rtypes.map tyEntry
+  consts : gs.consts = ds.rdecls.filterMap constEntry
+  gconsts : ds.g.consts = gs.consts.map fun x => (x.1, x.2.ty)
+  funcs : gs.funcs = ds.rdecls.filterMap funcEntry
+  gfuncs : ds.g.funcs = gs.funcs.map fun x => (x.1, x.2.params, x.2.ty)
+  ctx : gs.context = ds.rtypes.map tyInstr ++ ds.rdecls.filterMap declInstr
+  ktypes : (gs.types.map (·.1)).Nodup
+  kconsts : (gs.consts.map (·.1)).Nodup
+  kfuncs : (gs.funcs.map (·.1)).Nodup
+
+theorem rel_init : Rel GState.init { g := { types := [], consts := [], funcs := [] }, viols := [] } := by
+  refine ⟨rfl, rfl, rfl, rfl, rfl, rfl, rfl, ?_, ?_, ?_⟩ <;> simp [GState.init]
+
+theorem rel_addErr {gs : GState} {ds : DS} (h : Rel gs ds) (k : ErrKind) (v : Name) (r : String) (k2 : ErrKind) (n : Name) (e : Bool) :
+    Rel (gs.addErr k v) (ds.viol r k2 n e) :=
+  ⟨h.types, h.gtypes, h.consts, h.gconsts, h.funcs, h.gfuncs, h.ctx, h.ktypes, h.kconsts, h.kfuncs⟩
+
+theorem rel_pass1 (names : List Name) : ∀ (p : Program) (gs : GState) (ds : DS), Rel gs ds → ds.rdecls = [] →
+    Rel (pass1 p gs) (declTypes names p ds) ∧ (declTypes names p ds).rdecls = []
+  | [], gs, ds, h, hd => by unfold pass1 declTypes; exact ⟨h, hd⟩
+  | .types d :: rest, gs, ds, h, hd => by
+    unfold pass1 declTypes
+    have hlook : (rlookup d.name ds.g.types).isSome = (assocGet d.name gs.types).isSome := by
+      rw [rlookup_eq_assocGet, h.gtypes, h.types]
+    unfold declType
+    rw [hlook]
+    cases hs : (assocGet d.name gs.types).isSome with
+    | true =>
+      simp only [if_true]
+      exact rel_pass1 names rest _ _ (rel_addErr h _ _ _ _ _ _) hd
+    | false =>
+      simp only [Bool.false_eq_true, if_false]
+      have hnone : assocGet d.name gs.types = none := by
+        cases hg : assocGet d.name gs.types with
+        | none => rfl
+        | some _ => rw [hg] at hs; simp at hs
+      apply rel_pass1 names rest
+      · have hins := assocInsert_absent d.name (Ty.struct d.name (attrsToMap d.attrs 0 .nil)) gs.types hnone
+        have hnew : ∀ (ds' : DS), ds'.rtypes = ds.rtypes → ds'.rdecls = ds.rdecls → ds'.g = ds.g → Rel gs ds' := by
+          intro ds' h1 h2 h3
+          exact ⟨by rw [h1]; exact h.types, by rw [h3, h1]; exact h.gtypes, by rw [h2]; exact h.consts,
+            by rw [h3]; exact h.gconsts, by rw [h2]; exact h.funcs, by rw [h3]; exact h.gfuncs,
+            by rw [h1, h2]; exact h.ctx, h.ktypes, h.kconsts, h.kfuncs⟩
+        -- the D2 note does not change anything the relation looks at
+        split
+        all_goals
+          refine ⟨?_, ?_, h.consts, h.gconsts, h.funcs, h.gfuncs, ?_, ?_, h.kconsts, h.kfuncs⟩
+          · show assocInsert d.name _ gs.types = List.map tyEntry (ds.rtypes ++ [d])
+            rw [hins, h.types]; simp [tyEntry]
+          · simp only [List.map_append, List.map_cons, List.map_nil]
+            first
+              | (rw [show (DS.viol "D2" ErrKind.typeNotFound d.name false ds).g = ds.g from rfl, h.gtypes]; rfl)
+              | (rw [h.gtypes]; rfl)
+          · simp only [List.map_append, List.map_cons, List.map_nil]
+            first
+              | (rw [show (DS.viol "D2" ErrKind.typeNotFound d.name false ds).rdecls = ds.rdecls from rfl,
+                     show (DS.viol "D2" ErrKind.typeNotFound d.name false ds).rtypes = ds.rtypes from rfl, hd, h.ctx, hd]; simp [tyInstr])
+              | (rw [hd, h.ctx, hd]; simp [tyInstr])
+          · show (List.map (·.1) (assocInsert d.name _ gs.types)).Nodup
+            rw [hins]
+            simp only [List.map_append, List.map_cons, List.map_nil]
+            rw [List.nodup_append]
+            refine ⟨h.ktypes, by simp, ?_⟩
+            intro a ha b hb
+            simp at hb; subst hb
+            intro heq; subst heq
+            exact assocGet_none_not_mem_keys _ _ hnone ha
+      · split <;> exact hd
+  | .imp _ :: rest, gs, ds, h, hd => by unfold pass1 declTypes; exact rel_pass1 names rest gs ds h hd
+  | .const _ :: rest, gs, ds, h, hd => by unfold pass1 declTypes; exact rel_pass1 names rest gs ds h hd
+  | .fn _ :: rest, gs, ds, h, hd => by unfold pass1 declTypes; exact rel_pass1 names rest gs ds h hd
+
+theorem typeExists_eq {gs : GState} {ds : DS} (h : Rel gs ds) (t : Ty) : gs.typeExists t = typeRegistered ds.g t := by
+  unfold GState.typeExists typeRegistered
+  cases t with
+  | prim _ => rfl
+  | struct n a => simp only; rw [rlookup_eq_assocGet, h.gtypes, h.types]
+  | array u n => simp only; rw [rlookup_eq_assocGet, h.gtypes, h.types]
+
+theorem constLookup_eq {gs : GState} {ds : DS} (h : Rel gs ds) (n : Name) :
+    (rlookup n ds.g.consts).isSome = (assocGet n gs.consts).isSome := by
+  rw [rlookup_eq_assocGet, h.gconsts]; exact assocGet_map_isSome _ n gs.consts
+
+theorem checkConstTail_go_eq {gs : GState} {ds : DS} (h : Rel gs ds) : ∀ (e : CExpr),
+    checkConstTail.go gs e = constTailMissing ds.g e
+  | .last (.const n) => by unfold checkConstTail.go constTailMissing; rw [constLookup_eq h]
+  | .last (.val _) => by unfold checkConstTail.go constTailMissing; rfl
+  | .cons (.const n) _ rest => by
+    unfold checkConstTail.go constTailMissing
+    rw [constLookup_eq h, checkConstTail_go_eq h rest]
+  | .cons (.val _) _ rest => by
+    unfold checkConstTail.go constTailMissing
+    exact checkConstTail_go_eq h rest
+
+theorem checkConstTail_eq {gs : GState} {ds : DS} (h : Rel gs ds) (e : CExpr) :
+    checkConstTail gs e.operation = e.tail?.bind (constTailMissing ds.g) := by
+  cases e with
+  | last v => rfl
+  | cons v o r => simp [CExpr.operation, CExpr.tail?, checkConstTail, checkConstTail_go_eq h]
+
+theorem checkParamTypes_eq {gs : GState} {ds : DS} (h : Rel gs ds) : ∀ (ps : List (Name × ATy)),
+    checkParamTypes gs ps = paramTypeMissing ds.g ps
+  | [] => rfl
+  | (n, t) :: rest => by
+    unfold checkParamTypes paramTypeMissing
+    rw [typeExists_eq h, checkParamTypes_eq h rest]
+
+theorem isSome_false_none {β : Type} {o : Option β} (h : o.isSome = false) : o = none := by
+  cases o <;> simp_all
+
+theorem rel_pass2 : ∀ (p : Program) (gs : GState) (ds : DS), Rel gs ds → Rel (pass2 p gs) (declConstsFns p ds)
+  | [], gs, ds, h => by unfold pass2 declConstsFns; exact h
+  | .imp _ :: rest, gs, ds, h => by unfold pass2 declConstsFns; exact rel_pass2 rest gs ds h
+  | .types _ :: rest, gs, ds, h => by unfold pass2 declConstsFns; exact rel_pass2 rest gs ds h
+  | .const d :: rest, gs, ds, h => by
+    unfold pass2 declConstsFns declConst
+    rw [constLookup_eq h]
+    cases hs : (assocGet d.name gs.consts).isSome with
+    | true => simp only [if_true]; exact rel_pass2 rest _ _ (rel_addErr h _ _ _ _ _ _)
+    | false =>
+      simp only [Bool.false_eq_true, if_false]
+      have hnone := isSome_false_none hs
+      -- the unenforced D4-head note changes nothing the relation looks at
+      have hrel' : ∀ ds', ds'.g = ds.g → ds'.rtypes = ds.rtypes → ds'.rdecls = ds.rdecls → Rel gs ds' := by
+        intro ds' h3 h1 h2
+        exact ⟨by rw [h1]; exact h.types, by rw [h3, h1]; exact h.gtypes, by rw [h2]; exact h.consts,
+          by rw [h3]; exact h.gconsts, by rw [h2]; exact h.funcs, by rw [h3]; exact h.gfuncs,
+          by rw [h1, h2]; exact h.ctx, h.ktypes, h.kconsts, h.kfuncs⟩
+      have hnote : (noteHead d ds).g = ds.g ∧ (noteHead d ds).rtypes = ds.rtypes ∧ (noteHead d ds).rdecls = ds.rdecls := by
+        unfold noteHead
+        cases d.value.headV with
+        | const n => dsimp only; split <;> exact ⟨rfl, rfl, rfl⟩
+        | val _ => exact ⟨rfl, rfl, rfl⟩
+      obtain ⟨hg0, ht0, hr0⟩ := hnote
+      generalize noteHead d ds = ds0 at hg0 ht0 hr0
+      have h0 : Rel gs ds0 := hrel' ds0 hg0 ht0 hr0
+      rw [checkConstTail_eq h0]
+      cases ht : (d.value.tail?.bind (constTailMissing ds0.g)) with
+      | some n => dsimp only; exact rel_pass2 rest _ _ (rel_addErr h0 _ _ _ _ _ _)
+      | none =>
+        dsimp only
+        rw [typeExists_eq h0]
+        cases hty : typeRegistered ds0.g d.ty.toTy with
+        | false => simp only [Bool.not_false, if_true]; exact rel_pass2 rest _ _ (rel_addErr h0 _ _ _ _ _ _)
+        | true =>
+          simp only [Bool.not_true, Bool.false_eq_true, if_false]
+          apply rel_pass2 rest
+          have hins := assocInsert_absent d.name (⟨d.name, d.ty.toTy, d.value⟩ : ConstSem) gs.consts hnone
+          refine ⟨h0.types, h0.gtypes, ?_, ?_, ?_, h0.gfuncs, ?_, h0.ktypes, ?_, h0.kfuncs⟩
+          · show assocInsert d.name _ gs.consts = List.filterMap constEntry (ds0.rdecls ++ [.const d])
+            rw [hins, h0.consts]; simp [constEntry]
+          · show ds0.g.consts ++ [(d.name, d.ty.toTy)] = List.map _ (assocInsert d.name _ gs.consts)
+            rw [hins, h0.gconsts]; simp
+          · show gs.funcs = List.filterMap funcEntry (ds0.rdecls ++ [.const d])
+            rw [h0.funcs]; simp [funcEntry]
+          · show gs.context ++ [_] = List.map tyInstr ds0.rtypes ++ List.filterMap declInstr (ds0.rdecls ++ [.const d])
+            rw [h0.ctx]; simp [declInstr]
+          · show (List.map (·.1) (assocInsert d.name _ gs.consts)).Nodup
+            rw [hins]
+            simp only [List.map_append, List.map_cons, List.map_nil]
+            rw [List.nodup_append]
+            refine ⟨h.kconsts, by simp, ?_⟩
+            intro a ha b hb
+            simp at hb; subst hb
+            intro heq; subst heq
+            exact assocGet_none_not_mem_keys _ _ hnone ha
+  | .fn f :: rest, gs, ds, h => by
+    unfold pass2 declConstsFns declFn
+    have hlook : (rlookup f.name ds.g.funcs).isSome = (assocGet f.name gs.funcs).isSome := by
+      rw [rlookup_eq_assocGet, h.gfuncs]; exact assocGet_map_isSome (fun (x : Func) => (x.params, x.ty)) f.name gs.funcs
+    rw [hlook]
+    cases hs : (assocGet f.name gs.funcs).isSome with
+    | true => simp only [if_true]; exact rel_pass2 rest _ _ (rel_addErr h _ _ _ _ _ _)
+    | false =>
+      simp only [Bool.false_eq_true, if_false]
+      have hnone := isSome_false_none hs
+      rw [typeExists_eq h]
+      cases hty : typeRegistered ds.g f.result.toTy with
+      | false => simp only [Bool.not_false, if_true]; exact rel_pass2 rest _ _ (rel_addErr h _ _ _ _ _ _)
+      | true =>
+        simp only [Bool.not_true, Bool.false_eq_true, if_false]
+        rw [checkParamTypes_eq h]
+        cases hp : paramTypeMissing ds.g f.params with
+        | some n => dsimp only; exact rel_pass2 rest _ _ (rel_addErr h _ _ _ _ _ _)
+        | none =>
+          dsimp only
+          apply rel_pass2 rest
+          have hins := assocInsert_absent f.name (⟨f.name, f.result.toTy, f.params.map fun p => p.2.toTy⟩ : Func) gs.funcs hnone
+          refine ⟨h.types, h.gtypes, ?_, h.gconsts, ?_, ?_, ?_, h.ktypes, h.kconsts, ?_⟩
+          · show gs.consts = List.filterMap constEntry (ds.rdecls ++ [.fn f])
+            rw [h.consts]; simp [constEntry]
+          · show assocInsert f.name _ gs.funcs = List.filterMap funcEntry (ds.rdecls ++ [.fn f])
+            rw [hins, h.funcs]; simp [funcEntry]
+          · show ds.g.funcs ++ [(f.name, f.params.map (·.2.toTy), f.result.toTy)] = List.map _ (assocInsert f.name _ gs.funcs)
+            rw [hins, h.gfuncs]; simp
+          · show gs.context ++ [_] = List.map tyInstr ds.rtypes ++ List.filterMap declInstr (ds.rdecls ++ [.fn f])
+            rw [h.ctx]; simp [declInstr]
+          · show (List.map (·.1) (assocInsert f.name _ gs.funcs)).Nodup
+            rw [hins]
+            simp only [List.map_append, List.map_cons, List.map_nil]
+            rw [List.nodup_append]
+            refine ⟨h.kfuncs, by simp, ?_⟩
+            intro a ha b hb
+            simp at hb; subst hb
+            intro heq; subst heq
+            exact assocGet_none_not_mem_keys _ _ hnone ha
+
+/-- the model's declaration passes compute the declarative registration -/
+theorem rel_run (p : Program) : Rel (pass2 p (pass1 p GState.init)) (declPhase p) := by
+  unfold declPhase
+  exact rel_pass2 p _ _ (rel_pass1 p.typeNames p _ _ rel_init rfl).1
+
+theorem nodupB_of_nodup' {α : Type} [DecidableEq α] : ∀ (l : List α), l.Nodup → nodupB l = true
+  | [], _ => rfl
+  | a :: rest, h => by
+    rw [List.nodup_cons] at h
+    unfold nodupB
+    simp [h.1, nodupB_of_nodup' rest h.2]
+
+/-- **C15** — for every program the global tables, the global stack and the number of root blocks
+of the model's result are those of the declarative registration -/
+theorem C15 (p : Program) : P_C15 p (run p) = [] := by
+  have h := rel_run p
+  have hp : (run p).panic = none ∨ (run p).panic.isSome = true := by
+    cases (run p).panic <;> simp
+  unfold P_C15
+  split
+  · rfl
+  · have hfn : (run p).roots.length = p.fnDecls.length := by
+      unfold run; simp [fns_eq_fnDecls]
+    have ht : (declPhase p).rtypes.map tyEntry = (run p).types := h.types.symm
+    have hc : (declPhase p).rdecls.filterMap constEntry = (run p).consts := h.consts.symm
+    have hf : (declPhase p).rdecls.filterMap funcEntry = (run p).funcs := h.funcs.symm
+    have hx : (declPhase p).rtypes.map tyInstr ++ (declPhase p).rdecls.filterMap declInstr = (run p).gcontext := h.ctx.symm
+    have hk1 : nodupB (List.map (fun x => x.1) (run p).types) = true := nodupB_of_nodup' _ h.ktypes
+    have hk2 : nodupB (List.map (fun x => x.1) (run p).consts) = true := nodupB_of_nodup' _ h.kconsts
+    have hk3 : nodupB (List.map (fun x => x.1) (run p).funcs) = true := nodupB_of_nodup' _ h.kfuncs
+    simp only [ht, hc, hf, hx, hfn, hk1, hk2, hk3, beq_self_eq_true, if_true, List.append_nil, Bool.and_self]
+
 end SemVerif
